@@ -13,6 +13,13 @@ see `P3R/Witness/C07.lean`):
     ∀ parameters, statement, proof, challenges:
       circuitOutcome env p α βs batches pf = .ok  ↔  verifyFri env p α βs batches pf = .ok ()
 
+Outside this arithmetic model: Merkle caps. The commit-phase loop of `verify_fri_circuit` skips
+the MMCS check only for `log_folded_height = 0`; for a cap of height `h` and a folded codeword of
+log height `h` the Merkle path is empty but the leaf hash is still compared with the cap entry the
+index selects. That is the subject of C14 (`friPhases_eq_replicate`) and C08; here it is exercised
+on the real code only (harness `fri`, modes `full` and `fixch`, cap heights 0-4 for the input and
+the commit-phase MMCS independently, seed C07-d).
+
 What is proved instead, piece by piece (each piece is one mechanism of the property text):
 
 * shape validation       `fri_shape_iff` (under hypotheses H1–H6; H1, H2, H4 shown necessary; no
